@@ -1,7 +1,8 @@
 pub mod c10;
+pub mod c12;
 
 use crate::prop::Property;
 
 pub fn all() -> Vec<Box<dyn Property>> {
-    vec![Box::new(c10::C10)]
+    vec![Box::new(c10::C10), Box::new(c12::C12)]
 }
